@@ -57,10 +57,11 @@ def run(repo="/repo"):
     return True
 
 
-def run_vectors(repo="/repo"):
+def run_vectors(repo=None):
     """RFC 8613 appendix C through the repository's own vector tests, against the tree under test.  The stand-ins were
     validated on their own by run(); a failure here is a disagreement between aiocoap and the published bytes.
     Returns a list of (test id, message)."""
+    repo = repo or os.environ.get("VERIF_REPO", "/repo")
     if repo not in sys.path:
         sys.path.insert(0, repo)
     import aiocoap.defaults  # noqa: F401  (tests/test_oscore.py expects it to be imported)
